@@ -12,14 +12,14 @@ import vlib
 MODULE = "ReplayWindow"
 
 
-def run_scripts(chk, binary, scripts, tag):
+def run_scripts(chk, binary, scripts, tag, test="TestVerifReplayScripts"):
     wd = vlib.scratch("c06")
     try:
         inp, out = os.path.join(wd, "in.ndjson"), os.path.join(wd, "out.ndjson")
         with open(inp, "w") as fh:
             for s in scripts:
                 fh.write(json.dumps(s) + "\n")
-        rc, txt = vlib.run_test(binary, "TestVerifReplayScripts", {"VERIF_IN": inp, "VERIF_OUT": out}, timeout=3000)
+        rc, txt = vlib.run_test(binary, test, {"VERIF_IN": inp, "VERIF_OUT": out}, timeout=3000)
         if rc != 0 or not os.path.exists(out):
             raise vlib.Inconclusive("replay-window harness failed (%s): %s" % (tag, txt[-2000:]))
         rows = vlib.read_ndjson(out)
@@ -37,7 +37,7 @@ def run_scripts(chk, binary, scripts, tag):
                 chk.violation({"kind": "anti-replay", "what": v, "script": sc, "got": r.get("got")})
             for dv in r.get("diverge", []):
                 ndiv += 1
-                if not r.get("violations"):
+                if not r.get("violations") and ndiv <= 3:
                     chk.note("DIVERGENCE model/code (%s script %d): %s" % (tag, r["script"], dv))
         chk.parts["replay." + tag] = {"scripts": summary["scripts"], "deliveries": summary["deliveries"],
                                       "lab_skipped": summary["lab"], "model_code_divergences": ndiv}
@@ -72,6 +72,25 @@ def run(chk):
     for s in long:
         chk.distinct.add("%d:%s" % (s["w"], s["arrivals"]))
     run_scripts(chk, binary, long, "default-window-long")
+    # replays across a DTLS 1.3 key update (spec/ReplayEpochs.tla) and across truncated-number boundaries
+    res = vlib.tlc_check("ReplayEpochs", "ReplayEpochs.mc.%s.cfg" % t, timeout=1500)
+    chk.add_tlc("mc.epochs", res)
+    vlib.tlc_expect_violation("ReplayEpochs", "ReplayEpochs.mc.wipe.cfg", "AtMostOnce", timeout=300)
+    gen2 = vlib.tlc_generate("ReplayEpochs", "ReplayEpochs.gen.%s.cfg" % t, timeout=1500)
+    chk.add_tlc("gen.epochs", gen2)
+    ops = [dict(s, ver="13") for s in gen2.printed]
+    if len(ops) > 60000:
+        import random
+        ops = random.Random(chk.seed).sample(ops, 60000)
+    for s in scripts[chk.seed % 25::25] if chk.quick else scripts[chk.seed % 10::10]:
+        o = [{"op": "write", "rec": i} for i in range(1, max(s["arrivals"]) + 1)] + [{"op": "deliver", "rec": a} for a in s["arrivals"]]
+        ops.append({"w": s["w"], "ops": o, "delivered": s["delivered"], "ver": "13", "poke": 65536 - 3})
+        ops.append({"w": s["w"], "ops": o, "delivered": s["delivered"], "ver": "12", "poke": (1 << 32) - 2})
+        ops.append({"w": s["w"], "ops": o, "delivered": s["delivered"], "ver": "12", "poke": (1 << 40) - 3})
+    for s in ops:
+        chk.distinct.add("ops:%d:%s:%s" % (s["w"], s.get("poke", 0), s["ops"]))
+    run_scripts(chk, binary, ops, "epochs-and-boundaries", test="TestVerifReplayOps")
+    chk.sample({"ops": ops[len(ops) // 2]})
     chk.sample(scripts[len(scripts) // 3])
     chk.sample({"long": long[0]})
     chk.coverage["rule"] = ("every arrival sequence of length L over N records for each window (exhaustive, TLC); "
@@ -82,4 +101,5 @@ def run(chk):
 
 def replay(chk, path):
     facts = json.load(open(path))
-    run_scripts(chk, vlib.build("root"), [facts["script"]], "replay")
+    test = "TestVerifReplayOps" if "ops" in facts["script"] else "TestVerifReplayScripts"
+    run_scripts(chk, vlib.build("root"), [facts["script"]], "replay", test=test)
